@@ -621,7 +621,7 @@ class Check:
             "Coq 8.16.1 kernel (vm_compute used; no native_compute)",
             "axioms: none (Print Assumptions of every property theorem must read 'Closed under the global context')",
             "tools/c2v.py translator + clang JSON AST (Gen/Generated.v, GeneratedMem.v, GeneratedMemW.v, GeneratedIp.v, GeneratedFsm*.v, "
-            "LockSkeletons.v regenerated from /repo on this run; the memory-mode part is tested against the compiled functions by tools/footer_diff.py)",
+            "LockSkeletons.v, and by tools/c2v_mgr.py / c2v_send.py / c2v_store.py GeneratedMgr.v, GeneratedSend.v, GeneratedStore.v, regenerated from /repo on this run; the memory-mode part is tested against the compiled functions by tools/footer_diff.py)",
             "extraction: ExtrOcamlBasic only: " + "; ".join(extraction_directives()),
             "correspondence harness (C drivers in /verif/harness, generators and canonicalisation in tools/), gcc, sanitizers",
         ]
